@@ -136,6 +136,7 @@ def run_property(pid, tier, seed, root):
             jobs.append(('verify', u, tuple(defs)))
             if u.get('canary', True):
                 jobs.append(('canary', u, tuple(defs + ['CANARY'])))
+    os.environ['VERIF_TIER_EFFECTIVE'] = tier
     seeds = [None] if tier == 'quick' else [None, seed + 1, seed + 2]
 
     def do(job):
